@@ -15,12 +15,16 @@ of a direct call of the real function.  Trusted glue.
                                          naturals / integers; legal = count, then count-prefixed lists
                                          of `any` | <n>; sq, tr = 0 | 1
                                          -> ok <kind> <shape> <data> | err <e>   (`_check_convert_array`)
+  sel ssm <kind> <shape> <data> <axis> <square> <rows> <cols>
+                                         square = N | 0 | 1; rows, cols = N | <n>
+                                         -> ok <kind> <shape> <data> | err <e>   (`_ssmatrix`)
 -/
 import CtrlVerif.Driver.Util
 import CtrlVerif.Model.DtPred
 import CtrlVerif.Model.Index
 import CtrlVerif.Driver.MatEqn
 import CtrlVerif.Model.CheckConvert
+import CtrlVerif.Model.SsMatSpec
 
 namespace CtrlVerif.Driver.Select
 
@@ -132,8 +136,33 @@ def cca : P String := do
       ++ String.join (r.data.map fun d => " " ++ toString d))
   | .error e => pure (showErr e)
 
+def pOptNat : P (Option Nat) := do
+  match ← peek? with
+  | some "N" => let _ ← tok; pure none
+  | _ => let n ← pNat; pure (some n)
+
+def pOptBool : P (Option Bool) := do
+  match ← peek? with
+  | some "N" => let _ ← tok; pure none
+  | _ => let b ← pBool; pure (some b)
+
+def ssm : P String := do
+  let k ← pKind
+  let shape ← pList pNat
+  let data ← pList pInt
+  let axis ← pInt
+  let sq ← pOptBool
+  let rows ← pOptNat
+  let cols ← pOptNat
+  match C11GenSsMat.ssmatrixSpec (⟨shape, data, k⟩ : PyCCA.Arr Int) axis sq rows cols with
+  | .ok r => pure ("ok " ++ showKind r.kind ++ " " ++ toString r.shape.length
+      ++ String.join (r.shape.map fun d => " " ++ toString d) ++ " " ++ toString r.data.length
+      ++ String.join (r.data.map fun d => " " ++ toString d))
+  | .error e => pure (showErr e)
+
 def handle (toks : List String) : String :=
   match toks with
+  | "ssm" :: rest => runLine ssm rest
   | "cca" :: rest => runLine cca rest
   | "chk" :: rest => runLine chk rest
   | "dtpred" :: rest => runLine dtpred rest
